@@ -1,159 +1,1492 @@
 /*
- * blkmap64_rb.c — BOUNDED units (level B(4): trees of at most 4 extents; never counted as proved).
+ * blkmap64_rb.c — BOUNDED units (level B(n): trees of at most n extents before the operation; never counted as proved).
  * Harness-level obligations only (the operations free and allocate tree nodes; a DFCC frame for that is not
- * expressible without quantifiers), see rb_common.h for the tree builder, well_formed and the set view.
+ * expressible without quantifiers), see rb_common.h for the tree builder, well_formed, the colour invariants and the
+ * set view.  lib/ext2fs/rbtree.c (the real rebalancing code) is linked as a second translation unit.
  */
 /* VERIF-UNIT
 {
- "name": "rb_test_bit",
- "props": ["C16"],
+ "name": "rb_test_bit_n0",
+ "props": [
+  "C16"
+ ],
+ "level": "B(0)",
+ "tier": "wip",
+ "harness": "h_rb_test",
+ "defines": [
+  "EXT2_CUSTOM_MEMORY_ROUTINES",
+  "RB_N=0",
+  "RB_NEW=0"
+ ],
+ "unwind": 9,
+ "unwind_reason": "x",
+ "sources": [
+  "lib/ext2fs/rbtree.c"
+ ],
+ "functions": [
+  "lib/ext2fs/blkmap64_rb.c:rb_test_bmap",
+  "lib/ext2fs/blkmap64_rb.c:rb_test_bit"
+ ],
+ "assumes": [
+  "BOUNDED: tree of exactly 0 well-formed extents, every red-black shape, arbitrary cursors"
+ ],
+ "backend": "minisat",
+ "native": true,
+ "cbmc_flags": [
+  "--object-bits",
+  "10"
+ ],
+ "unwindset": {
+  "ext2fs_rb_next.0": 1,
+  "ext2fs_rb_next.1": 1,
+  "rb_test_bit.0": 1
+ }
+}
+*/
+/* VERIF-UNIT
+{
+ "name": "rb_test_bit_n1",
+ "props": [
+  "C16"
+ ],
+ "level": "B(1)",
+ "tier": "wip",
+ "harness": "h_rb_test",
+ "defines": [
+  "EXT2_CUSTOM_MEMORY_ROUTINES",
+  "RB_N=1",
+  "RB_NEW=0"
+ ],
+ "unwind": 9,
+ "unwind_reason": "x",
+ "sources": [
+  "lib/ext2fs/rbtree.c"
+ ],
+ "functions": [
+  "lib/ext2fs/blkmap64_rb.c:rb_test_bmap",
+  "lib/ext2fs/blkmap64_rb.c:rb_test_bit"
+ ],
+ "assumes": [
+  "BOUNDED: tree of exactly 1 well-formed extents, every red-black shape, arbitrary cursors"
+ ],
+ "backend": "minisat",
+ "native": true,
+ "cbmc_flags": [
+  "--object-bits",
+  "10"
+ ],
+ "unwindset": {
+  "ext2fs_rb_next.0": 2,
+  "ext2fs_rb_next.1": 2,
+  "rb_test_bit.0": 2
+ }
+}
+*/
+/* VERIF-UNIT
+{
+ "name": "rb_test_bit_n2",
+ "props": [
+  "C16"
+ ],
+ "level": "B(2)",
+ "tier": "wip",
+ "harness": "h_rb_test",
+ "defines": [
+  "EXT2_CUSTOM_MEMORY_ROUTINES",
+  "RB_N=2",
+  "RB_NEW=0"
+ ],
+ "unwind": 9,
+ "unwind_reason": "x",
+ "sources": [
+  "lib/ext2fs/rbtree.c"
+ ],
+ "functions": [
+  "lib/ext2fs/blkmap64_rb.c:rb_test_bmap",
+  "lib/ext2fs/blkmap64_rb.c:rb_test_bit"
+ ],
+ "assumes": [
+  "BOUNDED: tree of exactly 2 well-formed extents, every red-black shape, arbitrary cursors"
+ ],
+ "backend": "minisat",
+ "native": true,
+ "cbmc_flags": [
+  "--object-bits",
+  "10"
+ ],
+ "unwindset": {
+  "ext2fs_rb_next.0": 3,
+  "ext2fs_rb_next.1": 3,
+  "rb_test_bit.0": 3
+ }
+}
+*/
+/* VERIF-UNIT
+{
+ "name": "rb_test_bit_n3",
+ "props": [
+  "C16"
+ ],
+ "level": "B(3)",
+ "tier": "wip",
+ "harness": "h_rb_test",
+ "defines": [
+  "EXT2_CUSTOM_MEMORY_ROUTINES",
+  "RB_N=3",
+  "RB_NEW=0"
+ ],
+ "unwind": 9,
+ "unwind_reason": "x",
+ "sources": [
+  "lib/ext2fs/rbtree.c"
+ ],
+ "functions": [
+  "lib/ext2fs/blkmap64_rb.c:rb_test_bmap",
+  "lib/ext2fs/blkmap64_rb.c:rb_test_bit"
+ ],
+ "assumes": [
+  "BOUNDED: tree of exactly 3 well-formed extents, every red-black shape, arbitrary cursors"
+ ],
+ "backend": "minisat",
+ "native": true,
+ "cbmc_flags": [
+  "--object-bits",
+  "10"
+ ],
+ "unwindset": {
+  "ext2fs_rb_next.0": 3,
+  "ext2fs_rb_next.1": 3,
+  "rb_test_bit.0": 3
+ }
+}
+*/
+/* VERIF-UNIT
+{
+ "name": "rb_test_bit_n4",
+ "props": [
+  "C16"
+ ],
  "level": "B(4)",
  "tier": "wip",
  "harness": "h_rb_test",
- "unwind": 8,
- "unwindset": {"walk.0": 16},
- "unwind_reason": "BOUNDED: at most 4 extents (tree height <= 3, walk of <= 6 nodes needs 14 steps); unwinding assertions on",
- "sources": ["lib/ext2fs/rbtree.c"],
- "functions": ["lib/ext2fs/blkmap64_rb.c:rb_test_bmap", "lib/ext2fs/blkmap64_rb.c:rb_test_bit"],
- "assumes": ["BOUNDED: tree of <= 4 well-formed extents, every red-black shape, arbitrary cursors", "argument inside [start, real_end] (guaranteed by the generic layer)"],
- "backend": "kissat",
- "native": true
+ "defines": [
+  "EXT2_CUSTOM_MEMORY_ROUTINES",
+  "RB_N=4",
+  "RB_NEW=0"
+ ],
+ "unwind": 9,
+ "unwind_reason": "x",
+ "sources": [
+  "lib/ext2fs/rbtree.c"
+ ],
+ "functions": [
+  "lib/ext2fs/blkmap64_rb.c:rb_test_bmap",
+  "lib/ext2fs/blkmap64_rb.c:rb_test_bit"
+ ],
+ "assumes": [
+  "BOUNDED: tree of exactly 4 well-formed extents, every red-black shape, arbitrary cursors"
+ ],
+ "backend": "minisat",
+ "native": true,
+ "cbmc_flags": [
+  "--object-bits",
+  "10"
+ ],
+ "unwindset": {
+  "ext2fs_rb_next.0": 4,
+  "ext2fs_rb_next.1": 4,
+  "rb_test_bit.0": 4
+ }
 }
 */
 /* VERIF-UNIT
 {
- "name": "rb_insert_extent",
- "props": ["C16"],
+ "name": "rb_insert_extent_n0",
+ "props": [
+  "C16"
+ ],
+ "level": "B(0)",
+ "tier": "wip",
+ "harness": "h_rb_insert",
+ "defines": [
+  "EXT2_CUSTOM_MEMORY_ROUTINES",
+  "RB_N=0",
+  "RB_NEW=1"
+ ],
+ "unwind": 9,
+ "unwind_reason": "x",
+ "sources": [
+  "lib/ext2fs/rbtree.c"
+ ],
+ "functions": [
+  "lib/ext2fs/blkmap64_rb.c:rb_insert_extent",
+  "lib/ext2fs/blkmap64_rb.c:rb_mark_bmap",
+  "lib/ext2fs/blkmap64_rb.c:rb_mark_bmap_extent",
+  "lib/ext2fs/blkmap64_rb.c:rb_get_new_extent",
+  "lib/ext2fs/blkmap64_rb.c:rb_free_extent"
+ ],
+ "assumes": [
+  "BOUNDED: tree of exactly 0 well-formed extents, every red-black shape, arbitrary cursors"
+ ],
+ "backend": "minisat",
+ "native": true,
+ "cbmc_flags": [
+  "--object-bits",
+  "10"
+ ],
+ "unwindset": {
+  "ext2fs_rb_next.0": 2,
+  "ext2fs_rb_next.1": 2,
+  "ext2fs_rb_prev.0": 2,
+  "ext2fs_rb_prev.1": 2,
+  "ext2fs_rb_erase.0": 2,
+  "__rb_erase_color.0": 2,
+  "ext2fs_rb_insert_color.0": 2,
+  "rb_insert_extent.0": 1,
+  "rb_insert_extent.1": 1
+ }
+}
+*/
+/* VERIF-UNIT
+{
+ "name": "rb_insert_extent_n1",
+ "props": [
+  "C16"
+ ],
+ "level": "B(1)",
+ "tier": "wip",
+ "harness": "h_rb_insert",
+ "defines": [
+  "EXT2_CUSTOM_MEMORY_ROUTINES",
+  "RB_N=1",
+  "RB_NEW=1"
+ ],
+ "unwind": 9,
+ "unwind_reason": "x",
+ "sources": [
+  "lib/ext2fs/rbtree.c"
+ ],
+ "functions": [
+  "lib/ext2fs/blkmap64_rb.c:rb_insert_extent",
+  "lib/ext2fs/blkmap64_rb.c:rb_mark_bmap",
+  "lib/ext2fs/blkmap64_rb.c:rb_mark_bmap_extent",
+  "lib/ext2fs/blkmap64_rb.c:rb_get_new_extent",
+  "lib/ext2fs/blkmap64_rb.c:rb_free_extent"
+ ],
+ "assumes": [
+  "BOUNDED: tree of exactly 1 well-formed extents, every red-black shape, arbitrary cursors"
+ ],
+ "backend": "minisat",
+ "native": true,
+ "cbmc_flags": [
+  "--object-bits",
+  "10"
+ ],
+ "unwindset": {
+  "ext2fs_rb_next.0": 3,
+  "ext2fs_rb_next.1": 3,
+  "ext2fs_rb_prev.0": 3,
+  "ext2fs_rb_prev.1": 3,
+  "ext2fs_rb_erase.0": 3,
+  "__rb_erase_color.0": 3,
+  "ext2fs_rb_insert_color.0": 3,
+  "rb_insert_extent.0": 2,
+  "rb_insert_extent.1": 2
+ }
+}
+*/
+/* VERIF-UNIT
+{
+ "name": "rb_insert_extent_n2",
+ "props": [
+  "C16"
+ ],
+ "level": "B(2)",
+ "tier": "wip",
+ "harness": "h_rb_insert",
+ "defines": [
+  "EXT2_CUSTOM_MEMORY_ROUTINES",
+  "RB_N=2",
+  "RB_NEW=1"
+ ],
+ "unwind": 9,
+ "unwind_reason": "x",
+ "sources": [
+  "lib/ext2fs/rbtree.c"
+ ],
+ "functions": [
+  "lib/ext2fs/blkmap64_rb.c:rb_insert_extent",
+  "lib/ext2fs/blkmap64_rb.c:rb_mark_bmap",
+  "lib/ext2fs/blkmap64_rb.c:rb_mark_bmap_extent",
+  "lib/ext2fs/blkmap64_rb.c:rb_get_new_extent",
+  "lib/ext2fs/blkmap64_rb.c:rb_free_extent"
+ ],
+ "assumes": [
+  "BOUNDED: tree of exactly 2 well-formed extents, every red-black shape, arbitrary cursors"
+ ],
+ "backend": "minisat",
+ "native": true,
+ "cbmc_flags": [
+  "--object-bits",
+  "10"
+ ],
+ "unwindset": {
+  "ext2fs_rb_next.0": 3,
+  "ext2fs_rb_next.1": 3,
+  "ext2fs_rb_prev.0": 3,
+  "ext2fs_rb_prev.1": 3,
+  "ext2fs_rb_erase.0": 3,
+  "__rb_erase_color.0": 3,
+  "ext2fs_rb_insert_color.0": 3,
+  "rb_insert_extent.0": 3,
+  "rb_insert_extent.1": 3
+ }
+}
+*/
+/* VERIF-UNIT
+{
+ "name": "rb_insert_extent_n3",
+ "props": [
+  "C16"
+ ],
+ "level": "B(3)",
+ "tier": "wip",
+ "harness": "h_rb_insert",
+ "defines": [
+  "EXT2_CUSTOM_MEMORY_ROUTINES",
+  "RB_N=3",
+  "RB_NEW=1"
+ ],
+ "unwind": 9,
+ "unwind_reason": "x",
+ "sources": [
+  "lib/ext2fs/rbtree.c"
+ ],
+ "functions": [
+  "lib/ext2fs/blkmap64_rb.c:rb_insert_extent",
+  "lib/ext2fs/blkmap64_rb.c:rb_mark_bmap",
+  "lib/ext2fs/blkmap64_rb.c:rb_mark_bmap_extent",
+  "lib/ext2fs/blkmap64_rb.c:rb_get_new_extent",
+  "lib/ext2fs/blkmap64_rb.c:rb_free_extent"
+ ],
+ "assumes": [
+  "BOUNDED: tree of exactly 3 well-formed extents, every red-black shape, arbitrary cursors"
+ ],
+ "backend": "minisat",
+ "native": true,
+ "cbmc_flags": [
+  "--object-bits",
+  "10"
+ ],
+ "unwindset": {
+  "ext2fs_rb_next.0": 4,
+  "ext2fs_rb_next.1": 4,
+  "ext2fs_rb_prev.0": 4,
+  "ext2fs_rb_prev.1": 4,
+  "ext2fs_rb_erase.0": 4,
+  "__rb_erase_color.0": 4,
+  "ext2fs_rb_insert_color.0": 4,
+  "rb_insert_extent.0": 3,
+  "rb_insert_extent.1": 4
+ }
+}
+*/
+/* VERIF-UNIT
+{
+ "name": "rb_insert_extent_n4",
+ "props": [
+  "C16"
+ ],
  "level": "B(4)",
  "tier": "wip",
  "harness": "h_rb_insert",
- "unwind": 8,
- "unwindset": {"walk.0": 16},
- "unwind_reason": "BOUNDED: at most 4 extents before, 5 after; unwinding assertions on",
- "sources": ["lib/ext2fs/rbtree.c"],
- "functions": ["lib/ext2fs/blkmap64_rb.c:rb_insert_extent", "lib/ext2fs/blkmap64_rb.c:rb_mark_bmap", "lib/ext2fs/blkmap64_rb.c:rb_mark_bmap_extent"],
- "assumes": ["BOUNDED: tree of <= 4 well-formed extents, every red-black shape, arbitrary cursors", "range inside [start, real_end], count >= 1"],
- "backend": "kissat",
- "native": true
+ "defines": [
+  "EXT2_CUSTOM_MEMORY_ROUTINES",
+  "RB_N=4",
+  "RB_NEW=1"
+ ],
+ "unwind": 9,
+ "unwind_reason": "x",
+ "sources": [
+  "lib/ext2fs/rbtree.c"
+ ],
+ "functions": [
+  "lib/ext2fs/blkmap64_rb.c:rb_insert_extent",
+  "lib/ext2fs/blkmap64_rb.c:rb_mark_bmap",
+  "lib/ext2fs/blkmap64_rb.c:rb_mark_bmap_extent",
+  "lib/ext2fs/blkmap64_rb.c:rb_get_new_extent",
+  "lib/ext2fs/blkmap64_rb.c:rb_free_extent"
+ ],
+ "assumes": [
+  "BOUNDED: tree of exactly 4 well-formed extents, every red-black shape, arbitrary cursors"
+ ],
+ "backend": "minisat",
+ "native": true,
+ "cbmc_flags": [
+  "--object-bits",
+  "10"
+ ],
+ "unwindset": {
+  "ext2fs_rb_next.0": 4,
+  "ext2fs_rb_next.1": 4,
+  "ext2fs_rb_prev.0": 4,
+  "ext2fs_rb_prev.1": 4,
+  "ext2fs_rb_erase.0": 4,
+  "__rb_erase_color.0": 4,
+  "ext2fs_rb_insert_color.0": 4,
+  "rb_insert_extent.0": 4,
+  "rb_insert_extent.1": 5
+ }
 }
 */
 /* VERIF-UNIT
 {
- "name": "rb_remove_extent",
- "props": ["C16"],
+ "name": "rb_remove_extent_n0",
+ "props": [
+  "C16"
+ ],
+ "level": "B(0)",
+ "tier": "wip",
+ "harness": "h_rb_remove",
+ "defines": [
+  "EXT2_CUSTOM_MEMORY_ROUTINES",
+  "RB_N=0",
+  "RB_NEW=1"
+ ],
+ "unwind": 9,
+ "unwind_reason": "x",
+ "sources": [
+  "lib/ext2fs/rbtree.c"
+ ],
+ "functions": [
+  "lib/ext2fs/blkmap64_rb.c:rb_remove_extent",
+  "lib/ext2fs/blkmap64_rb.c:rb_unmark_bmap",
+  "lib/ext2fs/blkmap64_rb.c:rb_unmark_bmap_extent",
+  "lib/ext2fs/blkmap64_rb.c:rb_free_extent"
+ ],
+ "assumes": [
+  "BOUNDED: tree of exactly 0 well-formed extents, every red-black shape, arbitrary cursors"
+ ],
+ "backend": "minisat",
+ "native": true,
+ "cbmc_flags": [
+  "--object-bits",
+  "10"
+ ],
+ "unwindset": {
+  "ext2fs_rb_next.0": 2,
+  "ext2fs_rb_next.1": 2,
+  "ext2fs_rb_prev.0": 2,
+  "ext2fs_rb_prev.1": 2,
+  "ext2fs_rb_erase.0": 2,
+  "__rb_erase_color.0": 2,
+  "ext2fs_rb_insert_color.0": 2,
+  "rb_insert_extent.0": 1,
+  "rb_insert_extent.1": 1,
+  "rb_remove_extent.0": 2,
+  "rb_remove_extent.1": 2
+ }
+}
+*/
+/* VERIF-UNIT
+{
+ "name": "rb_remove_extent_n1",
+ "props": [
+  "C16"
+ ],
+ "level": "B(1)",
+ "tier": "wip",
+ "harness": "h_rb_remove",
+ "defines": [
+  "EXT2_CUSTOM_MEMORY_ROUTINES",
+  "RB_N=1",
+  "RB_NEW=1"
+ ],
+ "unwind": 9,
+ "unwind_reason": "x",
+ "sources": [
+  "lib/ext2fs/rbtree.c"
+ ],
+ "functions": [
+  "lib/ext2fs/blkmap64_rb.c:rb_remove_extent",
+  "lib/ext2fs/blkmap64_rb.c:rb_unmark_bmap",
+  "lib/ext2fs/blkmap64_rb.c:rb_unmark_bmap_extent",
+  "lib/ext2fs/blkmap64_rb.c:rb_free_extent"
+ ],
+ "assumes": [
+  "BOUNDED: tree of exactly 1 well-formed extents, every red-black shape, arbitrary cursors"
+ ],
+ "backend": "minisat",
+ "native": true,
+ "cbmc_flags": [
+  "--object-bits",
+  "10"
+ ],
+ "unwindset": {
+  "ext2fs_rb_next.0": 3,
+  "ext2fs_rb_next.1": 3,
+  "ext2fs_rb_prev.0": 3,
+  "ext2fs_rb_prev.1": 3,
+  "ext2fs_rb_erase.0": 3,
+  "__rb_erase_color.0": 3,
+  "ext2fs_rb_insert_color.0": 3,
+  "rb_insert_extent.0": 2,
+  "rb_insert_extent.1": 2,
+  "rb_remove_extent.0": 3,
+  "rb_remove_extent.1": 3
+ }
+}
+*/
+/* VERIF-UNIT
+{
+ "name": "rb_remove_extent_n2",
+ "props": [
+  "C16"
+ ],
+ "level": "B(2)",
+ "tier": "wip",
+ "harness": "h_rb_remove",
+ "defines": [
+  "EXT2_CUSTOM_MEMORY_ROUTINES",
+  "RB_N=2",
+  "RB_NEW=1"
+ ],
+ "unwind": 9,
+ "unwind_reason": "x",
+ "sources": [
+  "lib/ext2fs/rbtree.c"
+ ],
+ "functions": [
+  "lib/ext2fs/blkmap64_rb.c:rb_remove_extent",
+  "lib/ext2fs/blkmap64_rb.c:rb_unmark_bmap",
+  "lib/ext2fs/blkmap64_rb.c:rb_unmark_bmap_extent",
+  "lib/ext2fs/blkmap64_rb.c:rb_free_extent"
+ ],
+ "assumes": [
+  "BOUNDED: tree of exactly 2 well-formed extents, every red-black shape, arbitrary cursors"
+ ],
+ "backend": "minisat",
+ "native": true,
+ "cbmc_flags": [
+  "--object-bits",
+  "10"
+ ],
+ "unwindset": {
+  "ext2fs_rb_next.0": 3,
+  "ext2fs_rb_next.1": 3,
+  "ext2fs_rb_prev.0": 3,
+  "ext2fs_rb_prev.1": 3,
+  "ext2fs_rb_erase.0": 3,
+  "__rb_erase_color.0": 3,
+  "ext2fs_rb_insert_color.0": 3,
+  "rb_insert_extent.0": 3,
+  "rb_insert_extent.1": 3,
+  "rb_remove_extent.0": 4,
+  "rb_remove_extent.1": 4
+ }
+}
+*/
+/* VERIF-UNIT
+{
+ "name": "rb_remove_extent_n3",
+ "props": [
+  "C16"
+ ],
+ "level": "B(3)",
+ "tier": "wip",
+ "harness": "h_rb_remove",
+ "defines": [
+  "EXT2_CUSTOM_MEMORY_ROUTINES",
+  "RB_N=3",
+  "RB_NEW=1"
+ ],
+ "unwind": 9,
+ "unwind_reason": "x",
+ "sources": [
+  "lib/ext2fs/rbtree.c"
+ ],
+ "functions": [
+  "lib/ext2fs/blkmap64_rb.c:rb_remove_extent",
+  "lib/ext2fs/blkmap64_rb.c:rb_unmark_bmap",
+  "lib/ext2fs/blkmap64_rb.c:rb_unmark_bmap_extent",
+  "lib/ext2fs/blkmap64_rb.c:rb_free_extent"
+ ],
+ "assumes": [
+  "BOUNDED: tree of exactly 3 well-formed extents, every red-black shape, arbitrary cursors"
+ ],
+ "backend": "minisat",
+ "native": true,
+ "cbmc_flags": [
+  "--object-bits",
+  "10"
+ ],
+ "unwindset": {
+  "ext2fs_rb_next.0": 4,
+  "ext2fs_rb_next.1": 4,
+  "ext2fs_rb_prev.0": 4,
+  "ext2fs_rb_prev.1": 4,
+  "ext2fs_rb_erase.0": 4,
+  "__rb_erase_color.0": 4,
+  "ext2fs_rb_insert_color.0": 4,
+  "rb_insert_extent.0": 3,
+  "rb_insert_extent.1": 4,
+  "rb_remove_extent.0": 4,
+  "rb_remove_extent.1": 5
+ }
+}
+*/
+/* VERIF-UNIT
+{
+ "name": "rb_remove_extent_n4",
+ "props": [
+  "C16"
+ ],
  "level": "B(4)",
  "tier": "wip",
  "harness": "h_rb_remove",
- "defines": ["RB_CAP=2"],
- "unwind": 8,
- "unwindset": {"walk.0": 16},
- "unwind_reason": "BOUNDED: at most 4 extents before, 5 after (split); unwinding assertions on",
- "sources": ["lib/ext2fs/rbtree.c"],
- "functions": ["lib/ext2fs/blkmap64_rb.c:rb_remove_extent", "lib/ext2fs/blkmap64_rb.c:rb_unmark_bmap", "lib/ext2fs/blkmap64_rb.c:rb_unmark_bmap_extent"],
- "assumes": ["BOUNDED: tree of <= 4 well-formed extents, every red-black shape, arbitrary cursors", "range inside [start, real_end], count >= 1"],
- "backend": "kissat",
- "native": true
+ "defines": [
+  "EXT2_CUSTOM_MEMORY_ROUTINES",
+  "RB_N=4",
+  "RB_NEW=1"
+ ],
+ "unwind": 9,
+ "unwind_reason": "x",
+ "sources": [
+  "lib/ext2fs/rbtree.c"
+ ],
+ "functions": [
+  "lib/ext2fs/blkmap64_rb.c:rb_remove_extent",
+  "lib/ext2fs/blkmap64_rb.c:rb_unmark_bmap",
+  "lib/ext2fs/blkmap64_rb.c:rb_unmark_bmap_extent",
+  "lib/ext2fs/blkmap64_rb.c:rb_free_extent"
+ ],
+ "assumes": [
+  "BOUNDED: tree of exactly 4 well-formed extents, every red-black shape, arbitrary cursors"
+ ],
+ "backend": "minisat",
+ "native": true,
+ "cbmc_flags": [
+  "--object-bits",
+  "10"
+ ],
+ "unwindset": {
+  "ext2fs_rb_next.0": 4,
+  "ext2fs_rb_next.1": 4,
+  "ext2fs_rb_prev.0": 4,
+  "ext2fs_rb_prev.1": 4,
+  "ext2fs_rb_erase.0": 4,
+  "__rb_erase_color.0": 4,
+  "ext2fs_rb_insert_color.0": 4,
+  "rb_insert_extent.0": 4,
+  "rb_insert_extent.1": 5,
+  "rb_remove_extent.0": 5,
+  "rb_remove_extent.1": 6
+ }
 }
 */
 /* VERIF-UNIT
 {
- "name": "rb_test_clear_extent",
- "props": ["C16"],
+ "name": "rb_test_clear_extent_n0",
+ "props": [
+  "C16"
+ ],
+ "level": "B(0)",
+ "tier": "wip",
+ "harness": "h_rb_test_clear",
+ "defines": [
+  "EXT2_CUSTOM_MEMORY_ROUTINES",
+  "RB_N=0",
+  "RB_NEW=0"
+ ],
+ "unwind": 9,
+ "unwind_reason": "x",
+ "sources": [
+  "lib/ext2fs/rbtree.c"
+ ],
+ "functions": [
+  "lib/ext2fs/blkmap64_rb.c:rb_test_clear_bmap_extent"
+ ],
+ "assumes": [
+  "BOUNDED: tree of exactly 0 well-formed extents, every red-black shape, arbitrary cursors"
+ ],
+ "backend": "minisat",
+ "native": true,
+ "cbmc_flags": [
+  "--object-bits",
+  "10"
+ ],
+ "unwindset": {
+  "ext2fs_rb_next.0": 1,
+  "ext2fs_rb_next.1": 1,
+  "rb_test_clear_bmap_extent.0": 1,
+  "rb_test_clear_bmap_extent.1": 1
+ }
+}
+*/
+/* VERIF-UNIT
+{
+ "name": "rb_test_clear_extent_n1",
+ "props": [
+  "C16"
+ ],
+ "level": "B(1)",
+ "tier": "wip",
+ "harness": "h_rb_test_clear",
+ "defines": [
+  "EXT2_CUSTOM_MEMORY_ROUTINES",
+  "RB_N=1",
+  "RB_NEW=0"
+ ],
+ "unwind": 9,
+ "unwind_reason": "x",
+ "sources": [
+  "lib/ext2fs/rbtree.c"
+ ],
+ "functions": [
+  "lib/ext2fs/blkmap64_rb.c:rb_test_clear_bmap_extent"
+ ],
+ "assumes": [
+  "BOUNDED: tree of exactly 1 well-formed extents, every red-black shape, arbitrary cursors"
+ ],
+ "backend": "minisat",
+ "native": true,
+ "cbmc_flags": [
+  "--object-bits",
+  "10"
+ ],
+ "unwindset": {
+  "ext2fs_rb_next.0": 2,
+  "ext2fs_rb_next.1": 2,
+  "rb_test_clear_bmap_extent.0": 2,
+  "rb_test_clear_bmap_extent.1": 2
+ }
+}
+*/
+/* VERIF-UNIT
+{
+ "name": "rb_test_clear_extent_n2",
+ "props": [
+  "C16"
+ ],
+ "level": "B(2)",
+ "tier": "wip",
+ "harness": "h_rb_test_clear",
+ "defines": [
+  "EXT2_CUSTOM_MEMORY_ROUTINES",
+  "RB_N=2",
+  "RB_NEW=0"
+ ],
+ "unwind": 9,
+ "unwind_reason": "x",
+ "sources": [
+  "lib/ext2fs/rbtree.c"
+ ],
+ "functions": [
+  "lib/ext2fs/blkmap64_rb.c:rb_test_clear_bmap_extent"
+ ],
+ "assumes": [
+  "BOUNDED: tree of exactly 2 well-formed extents, every red-black shape, arbitrary cursors"
+ ],
+ "backend": "minisat",
+ "native": true,
+ "cbmc_flags": [
+  "--object-bits",
+  "10"
+ ],
+ "unwindset": {
+  "ext2fs_rb_next.0": 3,
+  "ext2fs_rb_next.1": 3,
+  "rb_test_clear_bmap_extent.0": 3,
+  "rb_test_clear_bmap_extent.1": 3
+ }
+}
+*/
+/* VERIF-UNIT
+{
+ "name": "rb_test_clear_extent_n3",
+ "props": [
+  "C16"
+ ],
+ "level": "B(3)",
+ "tier": "wip",
+ "harness": "h_rb_test_clear",
+ "defines": [
+  "EXT2_CUSTOM_MEMORY_ROUTINES",
+  "RB_N=3",
+  "RB_NEW=0"
+ ],
+ "unwind": 9,
+ "unwind_reason": "x",
+ "sources": [
+  "lib/ext2fs/rbtree.c"
+ ],
+ "functions": [
+  "lib/ext2fs/blkmap64_rb.c:rb_test_clear_bmap_extent"
+ ],
+ "assumes": [
+  "BOUNDED: tree of exactly 3 well-formed extents, every red-black shape, arbitrary cursors"
+ ],
+ "backend": "minisat",
+ "native": true,
+ "cbmc_flags": [
+  "--object-bits",
+  "10"
+ ],
+ "unwindset": {
+  "ext2fs_rb_next.0": 3,
+  "ext2fs_rb_next.1": 3,
+  "rb_test_clear_bmap_extent.0": 3,
+  "rb_test_clear_bmap_extent.1": 4
+ }
+}
+*/
+/* VERIF-UNIT
+{
+ "name": "rb_test_clear_extent_n4",
+ "props": [
+  "C16"
+ ],
  "level": "B(4)",
  "tier": "wip",
  "harness": "h_rb_test_clear",
- "unwind": 8,
- "unwindset": {"walk.0": 16},
- "unwind_reason": "BOUNDED: at most 4 extents; unwinding assertions on",
- "sources": ["lib/ext2fs/rbtree.c"],
- "functions": ["lib/ext2fs/blkmap64_rb.c:rb_test_clear_bmap_extent"],
- "assumes": ["BOUNDED: tree of <= 4 well-formed extents, every red-black shape, arbitrary cursors", "range inside [start, real_end], len >= 1"],
- "backend": "kissat",
- "native": true
+ "defines": [
+  "EXT2_CUSTOM_MEMORY_ROUTINES",
+  "RB_N=4",
+  "RB_NEW=0"
+ ],
+ "unwind": 9,
+ "unwind_reason": "x",
+ "sources": [
+  "lib/ext2fs/rbtree.c"
+ ],
+ "functions": [
+  "lib/ext2fs/blkmap64_rb.c:rb_test_clear_bmap_extent"
+ ],
+ "assumes": [
+  "BOUNDED: tree of exactly 4 well-formed extents, every red-black shape, arbitrary cursors"
+ ],
+ "backend": "minisat",
+ "native": true,
+ "cbmc_flags": [
+  "--object-bits",
+  "10"
+ ],
+ "unwindset": {
+  "ext2fs_rb_next.0": 4,
+  "ext2fs_rb_next.1": 4,
+  "rb_test_clear_bmap_extent.0": 4,
+  "rb_test_clear_bmap_extent.1": 5
+ }
 }
 */
 /* VERIF-UNIT
 {
- "name": "rb_find_first_zero",
- "props": ["C16"],
+ "name": "rb_find_first_zero_n0",
+ "props": [
+  "C16"
+ ],
+ "level": "B(0)",
+ "tier": "wip",
+ "harness": "h_rb_ffz",
+ "defines": [
+  "EXT2_CUSTOM_MEMORY_ROUTINES",
+  "RB_N=0",
+  "RB_NEW=0"
+ ],
+ "unwind": 9,
+ "unwind_reason": "x",
+ "sources": [
+  "lib/ext2fs/rbtree.c"
+ ],
+ "functions": [
+  "lib/ext2fs/blkmap64_rb.c:rb_find_first_zero"
+ ],
+ "assumes": [
+  "BOUNDED: tree of exactly 0 well-formed extents, every red-black shape, arbitrary cursors"
+ ],
+ "backend": "minisat",
+ "native": true,
+ "cbmc_flags": [
+  "--object-bits",
+  "10"
+ ],
+ "unwindset": {
+  "rb_find_first_zero.0": 1
+ }
+}
+*/
+/* VERIF-UNIT
+{
+ "name": "rb_find_first_zero_n1",
+ "props": [
+  "C16"
+ ],
+ "level": "B(1)",
+ "tier": "wip",
+ "harness": "h_rb_ffz",
+ "defines": [
+  "EXT2_CUSTOM_MEMORY_ROUTINES",
+  "RB_N=1",
+  "RB_NEW=0"
+ ],
+ "unwind": 9,
+ "unwind_reason": "x",
+ "sources": [
+  "lib/ext2fs/rbtree.c"
+ ],
+ "functions": [
+  "lib/ext2fs/blkmap64_rb.c:rb_find_first_zero"
+ ],
+ "assumes": [
+  "BOUNDED: tree of exactly 1 well-formed extents, every red-black shape, arbitrary cursors"
+ ],
+ "backend": "minisat",
+ "native": true,
+ "cbmc_flags": [
+  "--object-bits",
+  "10"
+ ],
+ "unwindset": {
+  "rb_find_first_zero.0": 2
+ }
+}
+*/
+/* VERIF-UNIT
+{
+ "name": "rb_find_first_zero_n2",
+ "props": [
+  "C16"
+ ],
+ "level": "B(2)",
+ "tier": "wip",
+ "harness": "h_rb_ffz",
+ "defines": [
+  "EXT2_CUSTOM_MEMORY_ROUTINES",
+  "RB_N=2",
+  "RB_NEW=0"
+ ],
+ "unwind": 9,
+ "unwind_reason": "x",
+ "sources": [
+  "lib/ext2fs/rbtree.c"
+ ],
+ "functions": [
+  "lib/ext2fs/blkmap64_rb.c:rb_find_first_zero"
+ ],
+ "assumes": [
+  "BOUNDED: tree of exactly 2 well-formed extents, every red-black shape, arbitrary cursors"
+ ],
+ "backend": "minisat",
+ "native": true,
+ "cbmc_flags": [
+  "--object-bits",
+  "10"
+ ],
+ "unwindset": {
+  "rb_find_first_zero.0": 3
+ }
+}
+*/
+/* VERIF-UNIT
+{
+ "name": "rb_find_first_zero_n3",
+ "props": [
+  "C16"
+ ],
+ "level": "B(3)",
+ "tier": "wip",
+ "harness": "h_rb_ffz",
+ "defines": [
+  "EXT2_CUSTOM_MEMORY_ROUTINES",
+  "RB_N=3",
+  "RB_NEW=0"
+ ],
+ "unwind": 9,
+ "unwind_reason": "x",
+ "sources": [
+  "lib/ext2fs/rbtree.c"
+ ],
+ "functions": [
+  "lib/ext2fs/blkmap64_rb.c:rb_find_first_zero"
+ ],
+ "assumes": [
+  "BOUNDED: tree of exactly 3 well-formed extents, every red-black shape, arbitrary cursors"
+ ],
+ "backend": "minisat",
+ "native": true,
+ "cbmc_flags": [
+  "--object-bits",
+  "10"
+ ],
+ "unwindset": {
+  "rb_find_first_zero.0": 3
+ }
+}
+*/
+/* VERIF-UNIT
+{
+ "name": "rb_find_first_zero_n4",
+ "props": [
+  "C16"
+ ],
  "level": "B(4)",
  "tier": "wip",
  "harness": "h_rb_ffz",
- "unwind": 8,
- "unwindset": {"walk.0": 16},
- "unwind_reason": "BOUNDED: at most 4 extents; unwinding assertions on",
- "sources": ["lib/ext2fs/rbtree.c"],
- "functions": ["lib/ext2fs/blkmap64_rb.c:rb_find_first_zero"],
- "assumes": ["BOUNDED: tree of <= 4 well-formed extents, every red-black shape, arbitrary cursors", "bitmap start <= start <= end <= bitmap end (checked by the generic layer)"],
- "backend": "kissat",
- "native": true
+ "defines": [
+  "EXT2_CUSTOM_MEMORY_ROUTINES",
+  "RB_N=4",
+  "RB_NEW=0"
+ ],
+ "unwind": 9,
+ "unwind_reason": "x",
+ "sources": [
+  "lib/ext2fs/rbtree.c"
+ ],
+ "functions": [
+  "lib/ext2fs/blkmap64_rb.c:rb_find_first_zero"
+ ],
+ "assumes": [
+  "BOUNDED: tree of exactly 4 well-formed extents, every red-black shape, arbitrary cursors"
+ ],
+ "backend": "minisat",
+ "native": true,
+ "cbmc_flags": [
+  "--object-bits",
+  "10"
+ ],
+ "unwindset": {
+  "rb_find_first_zero.0": 4
+ }
 }
 */
 /* VERIF-UNIT
 {
- "name": "rb_find_first_set",
- "props": ["C16"],
+ "name": "rb_find_first_set_n0",
+ "props": [
+  "C16"
+ ],
+ "level": "B(0)",
+ "tier": "wip",
+ "harness": "h_rb_ffs",
+ "defines": [
+  "EXT2_CUSTOM_MEMORY_ROUTINES",
+  "RB_N=0",
+  "RB_NEW=0"
+ ],
+ "unwind": 9,
+ "unwind_reason": "x",
+ "sources": [
+  "lib/ext2fs/rbtree.c"
+ ],
+ "functions": [
+  "lib/ext2fs/blkmap64_rb.c:rb_find_first_set"
+ ],
+ "assumes": [
+  "BOUNDED: tree of exactly 0 well-formed extents, every red-black shape, arbitrary cursors"
+ ],
+ "backend": "minisat",
+ "native": true,
+ "cbmc_flags": [
+  "--object-bits",
+  "10"
+ ],
+ "unwindset": {
+  "ext2fs_rb_next.0": 1,
+  "ext2fs_rb_next.1": 1,
+  "rb_find_first_set.0": 1
+ }
+}
+*/
+/* VERIF-UNIT
+{
+ "name": "rb_find_first_set_n1",
+ "props": [
+  "C16"
+ ],
+ "level": "B(1)",
+ "tier": "wip",
+ "harness": "h_rb_ffs",
+ "defines": [
+  "EXT2_CUSTOM_MEMORY_ROUTINES",
+  "RB_N=1",
+  "RB_NEW=0"
+ ],
+ "unwind": 9,
+ "unwind_reason": "x",
+ "sources": [
+  "lib/ext2fs/rbtree.c"
+ ],
+ "functions": [
+  "lib/ext2fs/blkmap64_rb.c:rb_find_first_set"
+ ],
+ "assumes": [
+  "BOUNDED: tree of exactly 1 well-formed extents, every red-black shape, arbitrary cursors"
+ ],
+ "backend": "minisat",
+ "native": true,
+ "cbmc_flags": [
+  "--object-bits",
+  "10"
+ ],
+ "unwindset": {
+  "ext2fs_rb_next.0": 2,
+  "ext2fs_rb_next.1": 2,
+  "rb_find_first_set.0": 2
+ }
+}
+*/
+/* VERIF-UNIT
+{
+ "name": "rb_find_first_set_n2",
+ "props": [
+  "C16"
+ ],
+ "level": "B(2)",
+ "tier": "wip",
+ "harness": "h_rb_ffs",
+ "defines": [
+  "EXT2_CUSTOM_MEMORY_ROUTINES",
+  "RB_N=2",
+  "RB_NEW=0"
+ ],
+ "unwind": 9,
+ "unwind_reason": "x",
+ "sources": [
+  "lib/ext2fs/rbtree.c"
+ ],
+ "functions": [
+  "lib/ext2fs/blkmap64_rb.c:rb_find_first_set"
+ ],
+ "assumes": [
+  "BOUNDED: tree of exactly 2 well-formed extents, every red-black shape, arbitrary cursors"
+ ],
+ "backend": "minisat",
+ "native": true,
+ "cbmc_flags": [
+  "--object-bits",
+  "10"
+ ],
+ "unwindset": {
+  "ext2fs_rb_next.0": 3,
+  "ext2fs_rb_next.1": 3,
+  "rb_find_first_set.0": 3
+ }
+}
+*/
+/* VERIF-UNIT
+{
+ "name": "rb_find_first_set_n3",
+ "props": [
+  "C16"
+ ],
+ "level": "B(3)",
+ "tier": "wip",
+ "harness": "h_rb_ffs",
+ "defines": [
+  "EXT2_CUSTOM_MEMORY_ROUTINES",
+  "RB_N=3",
+  "RB_NEW=0"
+ ],
+ "unwind": 9,
+ "unwind_reason": "x",
+ "sources": [
+  "lib/ext2fs/rbtree.c"
+ ],
+ "functions": [
+  "lib/ext2fs/blkmap64_rb.c:rb_find_first_set"
+ ],
+ "assumes": [
+  "BOUNDED: tree of exactly 3 well-formed extents, every red-black shape, arbitrary cursors"
+ ],
+ "backend": "minisat",
+ "native": true,
+ "cbmc_flags": [
+  "--object-bits",
+  "10"
+ ],
+ "unwindset": {
+  "ext2fs_rb_next.0": 3,
+  "ext2fs_rb_next.1": 3,
+  "rb_find_first_set.0": 3
+ }
+}
+*/
+/* VERIF-UNIT
+{
+ "name": "rb_find_first_set_n4",
+ "props": [
+  "C16"
+ ],
  "level": "B(4)",
  "tier": "wip",
  "harness": "h_rb_ffs",
- "unwind": 8,
- "unwindset": {"walk.0": 16},
- "unwind_reason": "BOUNDED: at most 4 extents; unwinding assertions on",
- "sources": ["lib/ext2fs/rbtree.c"],
- "functions": ["lib/ext2fs/blkmap64_rb.c:rb_find_first_set"],
- "assumes": ["BOUNDED: tree of <= 4 well-formed extents, every red-black shape, arbitrary cursors", "bitmap start <= start <= end <= bitmap end (checked by the generic layer)"],
- "backend": "kissat",
- "native": true
+ "defines": [
+  "EXT2_CUSTOM_MEMORY_ROUTINES",
+  "RB_N=4",
+  "RB_NEW=0"
+ ],
+ "unwind": 9,
+ "unwind_reason": "x",
+ "sources": [
+  "lib/ext2fs/rbtree.c"
+ ],
+ "functions": [
+  "lib/ext2fs/blkmap64_rb.c:rb_find_first_set"
+ ],
+ "assumes": [
+  "BOUNDED: tree of exactly 4 well-formed extents, every red-black shape, arbitrary cursors"
+ ],
+ "backend": "minisat",
+ "native": true,
+ "cbmc_flags": [
+  "--object-bits",
+  "10"
+ ],
+ "unwindset": {
+  "ext2fs_rb_next.0": 4,
+  "ext2fs_rb_next.1": 4,
+  "rb_find_first_set.0": 4
+ }
 }
 */
 /* VERIF-UNIT
 {
- "name": "rb_get_bmap_range",
- "props": ["C16"],
- "level": "B(4)",
+ "name": "rb_resize_bmap_n0",
+ "props": [
+  "C16"
+ ],
+ "level": "B(0)",
  "tier": "wip",
- "harness": "h_rb_get_range",
- "unwind": 20,
- "unwind_reason": "BOUNDED: at most 4 extents and num <= 64 bits (per extent at most 7 + 1 + 7 steps of the bit/byte loop); unwinding assertions on",
- "sources": ["lib/ext2fs/rbtree.c", "lib/ext2fs/bitops.c"],
- "functions": ["lib/ext2fs/blkmap64_rb.c:rb_get_bmap_range"],
- "assumes": ["BOUNDED: tree of <= 4 well-formed extents, every red-black shape, arbitrary cursors", "BOUNDED: 1 <= num <= 64 (8-byte output buffer with arbitrary previous content)", "range inside [start, real_end]"],
- "backend": "kissat",
- "native": true
+ "harness": "h_rb_resize",
+ "defines": [
+  "EXT2_CUSTOM_MEMORY_ROUTINES",
+  "RB_N=0",
+  "RB_NEW=1"
+ ],
+ "unwind": 9,
+ "unwind_reason": "x",
+ "sources": [
+  "lib/ext2fs/rbtree.c"
+ ],
+ "functions": [
+  "lib/ext2fs/blkmap64_rb.c:rb_resize_bmap",
+  "lib/ext2fs/blkmap64_rb.c:rb_truncate",
+  "lib/ext2fs/blkmap64_rb.c:rb_insert_extent"
+ ],
+ "assumes": [
+  "BOUNDED: tree of exactly 0 well-formed extents, every red-black shape, arbitrary cursors"
+ ],
+ "backend": "minisat",
+ "native": true,
+ "cbmc_flags": [
+  "--object-bits",
+  "10"
+ ],
+ "unwindset": {
+  "ext2fs_rb_next.0": 2,
+  "ext2fs_rb_next.1": 2,
+  "ext2fs_rb_prev.0": 2,
+  "ext2fs_rb_prev.1": 2,
+  "ext2fs_rb_last.0": 2,
+  "ext2fs_rb_erase.0": 2,
+  "__rb_erase_color.0": 2,
+  "ext2fs_rb_insert_color.0": 2,
+  "rb_insert_extent.0": 1,
+  "rb_insert_extent.1": 1,
+  "rb_truncate.0": 3
+ }
 }
 */
 /* VERIF-UNIT
 {
- "name": "rb_set_bmap_range",
- "props": ["C16"],
+ "name": "rb_resize_bmap_n1",
+ "props": [
+  "C16"
+ ],
+ "level": "B(1)",
+ "tier": "wip",
+ "harness": "h_rb_resize",
+ "defines": [
+  "EXT2_CUSTOM_MEMORY_ROUTINES",
+  "RB_N=1",
+  "RB_NEW=1"
+ ],
+ "unwind": 9,
+ "unwind_reason": "x",
+ "sources": [
+  "lib/ext2fs/rbtree.c"
+ ],
+ "functions": [
+  "lib/ext2fs/blkmap64_rb.c:rb_resize_bmap",
+  "lib/ext2fs/blkmap64_rb.c:rb_truncate",
+  "lib/ext2fs/blkmap64_rb.c:rb_insert_extent"
+ ],
+ "assumes": [
+  "BOUNDED: tree of exactly 1 well-formed extents, every red-black shape, arbitrary cursors"
+ ],
+ "backend": "minisat",
+ "native": true,
+ "cbmc_flags": [
+  "--object-bits",
+  "10"
+ ],
+ "unwindset": {
+  "ext2fs_rb_next.0": 3,
+  "ext2fs_rb_next.1": 3,
+  "ext2fs_rb_prev.0": 3,
+  "ext2fs_rb_prev.1": 3,
+  "ext2fs_rb_last.0": 3,
+  "ext2fs_rb_erase.0": 3,
+  "__rb_erase_color.0": 3,
+  "ext2fs_rb_insert_color.0": 3,
+  "rb_insert_extent.0": 2,
+  "rb_insert_extent.1": 2,
+  "rb_truncate.0": 4
+ }
+}
+*/
+/* VERIF-UNIT
+{
+ "name": "rb_resize_bmap_n2",
+ "props": [
+  "C16"
+ ],
  "level": "B(2)",
  "tier": "wip",
- "harness": "h_rb_set_range",
- "unwind": 8,
- "unwindset": {"walk.0": 16},
- "unwind_reason": "BOUNDED: at most 2 extents before, num <= 6 bits (at most 3 runs inserted, 5 extents after); unwinding assertions on",
- "sources": ["lib/ext2fs/rbtree.c", "lib/ext2fs/bitops.c"],
- "functions": ["lib/ext2fs/blkmap64_rb.c:rb_set_bmap_range"],
- "assumes": ["BOUNDED: tree of <= 2 well-formed extents, arbitrary cursors", "BOUNDED: 1 <= num <= 6", "range inside [start, real_end]"],
- "backend": "kissat",
- "native": true
+ "harness": "h_rb_resize",
+ "defines": [
+  "EXT2_CUSTOM_MEMORY_ROUTINES",
+  "RB_N=2",
+  "RB_NEW=1"
+ ],
+ "unwind": 9,
+ "unwind_reason": "x",
+ "sources": [
+  "lib/ext2fs/rbtree.c"
+ ],
+ "functions": [
+  "lib/ext2fs/blkmap64_rb.c:rb_resize_bmap",
+  "lib/ext2fs/blkmap64_rb.c:rb_truncate",
+  "lib/ext2fs/blkmap64_rb.c:rb_insert_extent"
+ ],
+ "assumes": [
+  "BOUNDED: tree of exactly 2 well-formed extents, every red-black shape, arbitrary cursors"
+ ],
+ "backend": "minisat",
+ "native": true,
+ "cbmc_flags": [
+  "--object-bits",
+  "10"
+ ],
+ "unwindset": {
+  "ext2fs_rb_next.0": 3,
+  "ext2fs_rb_next.1": 3,
+  "ext2fs_rb_prev.0": 3,
+  "ext2fs_rb_prev.1": 3,
+  "ext2fs_rb_last.0": 3,
+  "ext2fs_rb_erase.0": 3,
+  "__rb_erase_color.0": 3,
+  "ext2fs_rb_insert_color.0": 3,
+  "rb_insert_extent.0": 3,
+  "rb_insert_extent.1": 3,
+  "rb_truncate.0": 5
+ }
 }
 */
 /* VERIF-UNIT
 {
- "name": "rb_resize_bmap",
- "props": ["C16"],
+ "name": "rb_resize_bmap_n3",
+ "props": [
+  "C16"
+ ],
+ "level": "B(3)",
+ "tier": "wip",
+ "harness": "h_rb_resize",
+ "defines": [
+  "EXT2_CUSTOM_MEMORY_ROUTINES",
+  "RB_N=3",
+  "RB_NEW=1"
+ ],
+ "unwind": 9,
+ "unwind_reason": "x",
+ "sources": [
+  "lib/ext2fs/rbtree.c"
+ ],
+ "functions": [
+  "lib/ext2fs/blkmap64_rb.c:rb_resize_bmap",
+  "lib/ext2fs/blkmap64_rb.c:rb_truncate",
+  "lib/ext2fs/blkmap64_rb.c:rb_insert_extent"
+ ],
+ "assumes": [
+  "BOUNDED: tree of exactly 3 well-formed extents, every red-black shape, arbitrary cursors"
+ ],
+ "backend": "minisat",
+ "native": true,
+ "cbmc_flags": [
+  "--object-bits",
+  "10"
+ ],
+ "unwindset": {
+  "ext2fs_rb_next.0": 4,
+  "ext2fs_rb_next.1": 4,
+  "ext2fs_rb_prev.0": 4,
+  "ext2fs_rb_prev.1": 4,
+  "ext2fs_rb_last.0": 4,
+  "ext2fs_rb_erase.0": 4,
+  "__rb_erase_color.0": 4,
+  "ext2fs_rb_insert_color.0": 4,
+  "rb_insert_extent.0": 3,
+  "rb_insert_extent.1": 4,
+  "rb_truncate.0": 6
+ }
+}
+*/
+/* VERIF-UNIT
+{
+ "name": "rb_resize_bmap_n4",
+ "props": [
+  "C16"
+ ],
  "level": "B(4)",
  "tier": "wip",
  "harness": "h_rb_resize",
- "unwind": 8,
- "unwindset": {"walk.0": 16},
- "unwind_reason": "BOUNDED: at most 4 extents; unwinding assertions on",
- "sources": ["lib/ext2fs/rbtree.c"],
- "functions": ["lib/ext2fs/blkmap64_rb.c:rb_resize_bmap", "lib/ext2fs/blkmap64_rb.c:rb_truncate"],
- "assumes": ["BOUNDED: tree of <= 4 well-formed extents, every red-black shape, arbitrary cursors", "start <= new_end <= new_real_end, new_real_end - start < 2^62"],
- "backend": "kissat",
- "native": true
+ "defines": [
+  "EXT2_CUSTOM_MEMORY_ROUTINES",
+  "RB_N=4",
+  "RB_NEW=1"
+ ],
+ "unwind": 9,
+ "unwind_reason": "x",
+ "sources": [
+  "lib/ext2fs/rbtree.c"
+ ],
+ "functions": [
+  "lib/ext2fs/blkmap64_rb.c:rb_resize_bmap",
+  "lib/ext2fs/blkmap64_rb.c:rb_truncate",
+  "lib/ext2fs/blkmap64_rb.c:rb_insert_extent"
+ ],
+ "assumes": [
+  "BOUNDED: tree of exactly 4 well-formed extents, every red-black shape, arbitrary cursors"
+ ],
+ "backend": "minisat",
+ "native": true,
+ "cbmc_flags": [
+  "--object-bits",
+  "10"
+ ],
+ "unwindset": {
+  "ext2fs_rb_next.0": 4,
+  "ext2fs_rb_next.1": 4,
+  "ext2fs_rb_prev.0": 4,
+  "ext2fs_rb_prev.1": 4,
+  "ext2fs_rb_last.0": 4,
+  "ext2fs_rb_erase.0": 4,
+  "__rb_erase_color.0": 4,
+  "ext2fs_rb_insert_color.0": 4,
+  "rb_insert_extent.0": 4,
+  "rb_insert_extent.1": 5,
+  "rb_truncate.0": 7
+ }
 }
 */
 #include "rb_common.h"
@@ -162,8 +1495,8 @@
 
 static void check_unchanged(void)
 {
-	walk();
-	CHECK(well_formed(), "well_formed is preserved (links, sorted, disjoint, non-adjacent, count > 0, cursors)");
+	CHECK_TREE("query");
+	CHECK(WN == NN, "a query does not change the number of extents");
 	CHECK(view(verif_k) == ref_member(verif_k), "the set is unchanged by a query");
 }
 
@@ -174,35 +1507,66 @@ void h_rb_test(void)
 	int r = rb_test_bmap(&BM, IN.arg);
 	CHECK((r != 0) == ref_member(IN.arg - IN.start), "test_bmap returns membership");
 	check_unchanged();
-	if (IN.n == 4 && IN.rc && r == 0) REACH("4 extents, rcursor set, not a member");
+	if (NN == RB_N && IN.rc && IN.rcn && !ref_member(IN.arg - IN.start)) REACH("rcursor and rcursor_next set, not a member");
+	if (NN == RB_N && IN.rc == 0 && IN.wc && ref_member(IN.arg - IN.start)) REACH("no rcursor, wcursor set, member");
 	REACH("end");
 }
 
+/* mark_bmap (one bit, returns the old membership) / mark_bmap_extent (IN.num bits) through the ops-table entries */
 void h_rb_insert(void)
 {
 	build_rb();
-	ASSUME(IN.arg2 >= 1 && IN.arg <= IN.real_end - IN.start && IN.arg2 - 1 <= IN.real_end - IN.start - IN.arg);
-	int r = rb_insert_extent(IN.arg, IN.arg2, BP);
-	walk();
-	CHECK(well_formed(), "insert_extent preserves well_formed");
-	CHECK(view(verif_k) == (ref_member(verif_k) || IN_RANGE_REL(verif_k, IN.arg, IN.arg2)), "insert_extent: the set gains exactly [start, start+count)");
-	CHECK(IN.arg2 != 1 || (r != 0) == ref_member(IN.arg), "mark of a single bit returns the old membership");
-	if (IN.n == 4 && WN == 2) REACH("4 extents merged into 2");
-	if (IN.n == 4 && WN == 5) REACH("5 extents after insert");
+	ASSUME(IN.num >= 1 && IN.arg <= IN.real_end - IN.start && IN.num - 1 <= IN.real_end - IN.start - IN.arg);
+	if (IN.num == 1) {
+		int r = rb_mark_bmap(&BM, IN.start + IN.arg);
+		CHECK((r != 0) == ref_member(IN.arg), "mark_bmap returns the old membership of the bit");
+	} else
+		rb_mark_bmap_extent(&BM, IN.start + IN.arg, IN.num);
+	CHECK_TREE("insert_extent");
+	CHECK(view(verif_k) == (ref_member(verif_k) || IN_RANGE_REL(verif_k, IN.arg, IN.num)), "insert_extent: the set gains exactly [start, start+count)");
+	CHECK(BM.start == IN.start && BM.end == IN.end && BM.real_end == IN.real_end, "geometry untouched");
+#if RB_N >= 1
+	/* situations (phrased over the inputs): */
+	if (NN == RB_N && IN.arg == IN.es[0] + IN.ec[0] && IN.wc == 1) REACH("wcursor shortcut, range adjacent right after extent 0");
+	if (NN == RB_N && IN.wc == 0 && IN.arg + IN.num == IN.es[0]) REACH("no wcursor, range adjacent left of extent 0 (merge right)");
+	if (NN == RB_N && IN.wc == 0 && IN.arg == IN.es[RB_N - 1] + IN.ec[RB_N - 1]) REACH("no wcursor, range adjacent right after the last extent (merge left)");
+	if (NN == RB_N && IN.arg < IN.es[0] && IN.arg + IN.num > IN.es[RB_N - 1] + IN.ec[RB_N - 1]) REACH("range swallows every extent");
+#endif
+#if RB_N >= 2
+	if (NN == RB_N && IN.arg == IN.es[0] + IN.ec[0] && IN.arg + IN.num == IN.es[1]) REACH("range exactly fills the gap between extents 0 and 1");
+	if (NN == RB_N && IN.arg > IN.es[0] + IN.ec[0] && IN.arg + IN.num < IN.es[1]) REACH("new extent strictly inside the gap between extents 0 and 1");
+#endif
 	REACH("end");
 }
 
+/* unmark_bmap (one bit, returns the old membership) / rb_remove_extent (returns nonzero iff a bit of the range was set) */
 void h_rb_remove(void)
 {
 	build_rb();
-	ASSUME(IN.arg2 >= 1 && IN.arg <= IN.real_end - IN.start && IN.arg2 - 1 <= IN.real_end - IN.start - IN.arg);
-	int r = rb_remove_extent(IN.arg, IN.arg2, BP);
-	walk();
-	CHECK(well_formed(), "remove_extent preserves well_formed");
-	CHECK(view(verif_k) == (ref_member(verif_k) && !IN_RANGE_REL(verif_k, IN.arg, IN.arg2)), "remove_extent: the set loses exactly [start, start+count)");
-	CHECK((r != 0) == ref_any_in(IN.arg, IN.arg2), "remove_extent returns nonzero iff some bit of the range was set");
-	if (IN.n == 4 && WN == 5) REACH("split: 5 extents after remove");
-	if (IN.n == 4 && WN == 1) REACH("3 extents removed");
+	ASSUME(IN.num >= 1 && IN.arg <= IN.real_end - IN.start && IN.num - 1 <= IN.real_end - IN.start - IN.arg);
+	if (IN.num == 1) {
+		int r = rb_unmark_bmap(&BM, IN.start + IN.arg);
+		CHECK((r != 0) == ref_member(IN.arg), "unmark_bmap returns the old membership of the bit");
+	} else if (IN.shape & 0x80) {
+		rb_unmark_bmap_extent(&BM, IN.start + IN.arg, IN.num);
+	} else {
+		int r = rb_remove_extent(IN.arg, IN.num, BP);
+		CHECK((r != 0) == ref_any_in(IN.arg, IN.num), "remove_extent returns nonzero iff some bit of the range was set");
+	}
+	CHECK_TREE("remove_extent");
+	CHECK(view(verif_k) == (ref_member(verif_k) && !IN_RANGE_REL(verif_k, IN.arg, IN.num)), "remove_extent: the set loses exactly [start, start+count)");
+	CHECK(BM.start == IN.start && BM.end == IN.end && BM.real_end == IN.real_end, "geometry untouched");
+#if RB_N >= 1
+	if (NN == RB_N && IN.arg > IN.es[0] && IN.arg + IN.num < IN.es[0] + IN.ec[0]) REACH("range covers the middle of extent 0 (split)");
+	if (NN == RB_N && IN.arg < IN.es[0] && IN.arg + IN.num > IN.es[0] && IN.arg + IN.num < IN.es[0] + IN.ec[0]) REACH("range starts outside and ends strictly inside extent 0 (head truncated)");
+	if (NN == RB_N && IN.arg == IN.es[0] && IN.num < IN.ec[0]) REACH("range is a proper prefix of extent 0");
+	if (NN == RB_N && IN.arg > IN.es[0] && IN.arg + IN.num == IN.es[0] + IN.ec[0]) REACH("range is a proper suffix of extent 0");
+	if (NN == RB_N && IN.arg <= IN.es[0] && IN.arg + IN.num >= IN.es[RB_N - 1] + IN.ec[RB_N - 1]) REACH("range covers every extent");
+	if (NN == RB_N && IN.arg + IN.num == IN.es[0]) REACH("range ends immediately before extent 0");
+#endif
+#if RB_N >= 2
+	if (NN == RB_N && IN.arg > IN.es[0] && IN.arg < IN.es[0] + IN.ec[0] && IN.arg + IN.num > IN.es[1] && IN.arg + IN.num < IN.es[1] + IN.ec[1]) REACH("range from inside extent 0 to inside extent 1");
+#endif
 	REACH("end");
 }
 
@@ -213,7 +1577,11 @@ void h_rb_test_clear(void)
 	int r = rb_test_clear_bmap_extent(&BM, IN.arg, IN.num);
 	CHECK((r != 0) == !ref_any_in(IN.arg - IN.start, IN.num), "test_clear_bmap_extent: nonzero iff no bit of the range is set");
 	check_unchanged();
-	if (IN.n == 4 && r == 0) REACH("4 extents, range not clear");
+#if RB_N >= 1
+	if (NN == RB_N && IN.arg - IN.start < IN.es[0] && IN.arg - IN.start + IN.num > IN.es[0]) REACH("range starts before extent 0 and reaches into it");
+	if (NN == RB_N && IN.arg - IN.start + IN.num == IN.es[RB_N - 1]) REACH("range ends immediately before the last extent");
+#endif
+	if (!ref_any_in(IN.arg - IN.start, IN.num)) REACH("range clear");
 	REACH("end");
 }
 
@@ -233,8 +1601,11 @@ void h_rb_ffz(void)
 		CHECK(!(verif_k >= s && verif_k <= e) || ref_member(verif_k), "find_first_zero: ENOENT only if every bit of [start, end] is a member");
 	}
 	check_unchanged();
-	if (IN.n == 4 && r == 0 && out > IN.arg) REACH("4 extents, zero found after start");
-	if (IN.n == 0) REACH("empty tree");
+#if RB_N >= 1
+	if (NN == RB_N && ref_member(s) && IN.es[RB_N - 1] + IN.ec[RB_N - 1] - 1 == e) REACH("start is a member, the range ends with the last bit of the last extent");
+	if (NN == RB_N && ref_member(s) && !ref_member(e)) REACH("start is a member, end is not");
+#endif
+	if (!ref_member(s)) REACH("start is not a member");
 	REACH("end");
 }
 
@@ -254,15 +1625,21 @@ void h_rb_ffs(void)
 		CHECK(!(verif_k >= s && verif_k <= e) || !ref_member(verif_k), "find_first_set: ENOENT only if no bit of [start, end] is a member");
 	}
 	check_unchanged();
-	if (IN.n == 4 && r == 0 && out > IN.arg) REACH("4 extents, set bit found after start");
-	if (IN.n == 0) REACH("empty tree");
+#if RB_N >= 1
+	if (NN == RB_N && !ref_member(s) && s < IN.es[RB_N - 1] && e >= IN.es[RB_N - 1]) REACH("start not a member, a later extent begins inside the range");
+	if (NN == RB_N && s > IN.es[RB_N - 1] + IN.ec[RB_N - 1]) REACH("start behind the last extent");
+#endif
+	if (!ref_any_in(s, e - s + 1)) REACH("no member in the range");
 	REACH("end");
 }
 
+#ifndef RB_RANGE_BITS
+#define RB_RANGE_BITS 64
+#endif
 void h_rb_get_range(void)
 {
 	build_rb();
-	ASSUME(IN.num >= 1 && IN.num <= 64);
+	ASSUME(IN.num >= 1 && IN.num <= RB_RANGE_BITS);
 	ASSUME(IN.arg >= IN.start && IN.arg <= IN.real_end && IN.num - 1 <= IN.real_end - IN.arg);
 	unsigned char *out = malloc(8);
 	ASSUME(out != 0);
@@ -275,16 +1652,20 @@ void h_rb_get_range(void)
 	CHECK(((out[j >> 3] >> (j & 7)) & 1) == ref_member(IN.arg - IN.start + j), "get_bmap_range: output bit j = membership of start + j");
 	verif_k = IN.arg - IN.start + j;
 	check_unchanged();
-	if (IN.n == 4 && IN.num > 40) REACH("4 extents, long range");
-	if (IN.n == 0) REACH("empty tree");
+#if RB_N >= 1
+	if (NN == RB_N && IN.arg - IN.start > IN.es[0] && IN.arg - IN.start < IN.es[0] + IN.ec[0] && IN.num > 8) REACH("range starts inside extent 0, more than a byte");
+	if (NN == RB_N && IN.arg - IN.start < IN.es[0] && IN.arg - IN.start + IN.num > IN.es[RB_N - 1] + IN.ec[RB_N - 1]) REACH("range covers every extent");
+#endif
 	REACH("end");
 }
 
+#ifndef RB_SET_BITS
+#define RB_SET_BITS 6
+#endif
 void h_rb_set_range(void)
 {
 	build_rb();
-	ASSUME(IN.n <= 2);
-	ASSUME(IN.num >= 1 && IN.num <= 6);
+	ASSUME(IN.num >= 1 && IN.num <= RB_SET_BITS);
 	ASSUME(IN.arg >= IN.start && IN.arg <= IN.real_end && IN.num - 1 <= IN.real_end - IN.arg);
 	unsigned char *in = malloc(8);
 	ASSUME(in != 0);
@@ -293,29 +1674,32 @@ void h_rb_set_range(void)
 	unsigned long long s = IN.arg - IN.start;
 	errcode_t r = rb_set_bmap_range(&BM, IN.arg, IN.num, in);
 	CHECK(r == 0, "set_bmap_range succeeds");
-	walk();
-	CHECK(well_formed(), "set_bmap_range preserves well_formed");
+	CHECK_TREE("set_bmap_range");
 	CHECK(view(verif_k) == (ref_member(verif_k) || (IN_RANGE_REL(verif_k, s, IN.num) && ((IN.buf[(verif_k - s) >> 3] >> ((verif_k - s) & 7)) & 1))),
 	      "set_bmap_range: the set gains exactly the bits set in the input buffer");
-	if (IN.n == 2 && WN == 5) REACH("three runs inserted");
+	if (IN.num >= 5 && (IN.buf[0] & 0x1f) == 0x15 && !ref_any_in(s, 6)) REACH("three separate runs inserted");
+	if (IN.num == RB_SET_BITS && (IN.buf[0] & ((1 << RB_SET_BITS) - 1)) == ((1 << RB_SET_BITS) - 1)) REACH("one run up to the end of the range");
 	REACH("end");
 }
 
 void h_rb_resize(void)
 {
 	build_rb();
-	ASSUME(IN.arg >= IN.start && IN.arg <= IN.arg2 && IN.arg2 - IN.start < (1ULL << 62));
+	ASSUME(IN.arg >= IN.start && IN.arg <= IN.arg2 && IN.arg2 - IN.start < (1ULL << RB_BITS));
 	unsigned long long keep = (IN.arg < IN.end ? IN.arg : IN.end) - IN.start;	/* last bit that survives */
 	errcode_t r = rb_resize_bmap(&BM, IN.arg, IN.arg2);
 	CHECK(r == 0, "resize succeeds");
 	CHECK(BM.end == IN.arg && BM.real_end == IN.arg2 && BM.start == IN.start, "resize installs the new geometry");
-	walk();
-	CHECK(well_formed(), "resize preserves well_formed");
+	CHECK_TREE("resize");
 	int expect = verif_k <= keep ? ref_member(verif_k) :
 		     verif_k <= IN.arg - IN.start ? 0 :
 		     verif_k <= IN.arg2 - IN.start ? 1 : 0;	/* padding (new_end, new_real_end] is marked, nothing beyond */
 	CHECK(view(verif_k) == expect, "resize: members <= min(old end, new end) kept, new tail empty, padding marked");
-	if (IN.n == 4 && WN == 2) REACH("4 extents truncated");
-	if (IN.n == 4 && IN.arg > IN.end) REACH("grow");
+#if RB_N >= 1
+	if (NN == RB_N && IN.arg < IN.end && IN.arg - IN.start < IN.es[0]) REACH("shrink below the first extent");
+	if (NN == RB_N && IN.arg < IN.end && IN.arg - IN.start > IN.es[RB_N - 1] && IN.arg - IN.start < IN.es[RB_N - 1] + IN.ec[RB_N - 1] - 1) REACH("shrink into the last extent");
+	if (NN == RB_N && IN.arg > IN.end && IN.arg2 > IN.arg && IN.es[RB_N - 1] + IN.ec[RB_N - 1] - 1 == IN.real_end - IN.start && IN.end < IN.real_end) REACH("grow, old padding present");
+#endif
+	if (IN.arg > IN.end) REACH("grow");
 	REACH("end");
 }
